@@ -14,7 +14,7 @@ RULE = ("one case = one (function, dimension, point-set seed, sampling kind) wit
         "points has no integer coordinate; distinct = distinct (function, n, seed, kind)")
 ASSUMPTIONS = [
     "Richardson extrapolation (h0=0.02, 5 levels) is accurate to <1e-8 relative on these smooth functions",
-    "points closer than 0.5 to the origin (Ackley) or with |cos(x_i/sqrt(i))|<1e-6 (Griewank closed form divides by it) are excluded as singular; points with |cos| in [1e-5, 5e-2] are sampled on purpose",
+    "points closer than 0.5 to the origin (Ackley, not differentiable there) are excluded; Griewank is smooth everywhere: points with |cos(x_i/sqrt(i))| from 1e-13 to 5e-2 are sampled on purpose, only an exact zero of a cosine is excluded",
 ]
 NAMES = ("ackley", "beale", "griewank", "quartic", "rastrigin", "rosenbrock", "sphere", "styblinski_tang")
 TOL = 1e-6
@@ -22,7 +22,7 @@ NPTS = 25
 
 
 def floors(tier):
-    return {"points_checked": 400, "points_generic": 200, "points_passed_as_non_contiguous_view": 300, "points_checked_after_solver_runs": 250, "solver_runs_on_exported_functions": 20, "__nontrivial__": 40}
+    return {"points_checked": 400, "points_generic": 200, "points_passed_as_non_contiguous_view": 300, "points_within_1e-7_of_a_cosine_zero": 20, "points_checked_after_solver_runs": 250, "solver_runs_on_exported_functions": 20, "__nontrivial__": 40}
 
 
 def cases(tier, seed):
@@ -74,7 +74,7 @@ def run_after_solver(spec, out):
         for x in pts:
             if name == "ackley" and np.linalg.norm(x) < 0.5:
                 continue
-            if name == "griewank" and np.any(np.abs(np.cos(x / np.sqrt(np.arange(1, n + 1)))) < 1e-6):
+            if name == "griewank" and np.any(np.cos(x / np.sqrt(np.arange(1, n + 1))) == 0.0):
                 continue
             check_point(f, g, x, out, name)
             out.count("points_checked")
@@ -140,7 +140,7 @@ def run(spec):
             i = int(rng.integers(0, n))
             root = (np.pi / 2 + np.pi * int(rng.integers(-1, 1))) * np.sqrt(i + 1)
             if abs(root) <= 5:
-                x[i] = root + float(rng.choice([-1.0, 1.0]) * np.exp(rng.uniform(np.log(1e-5), np.log(5e-2)))) * np.sqrt(i + 1)
+                x[i] = root + float(rng.choice([-1.0, 1.0]) * np.exp(rng.uniform(np.log(1e-13), np.log(5e-2)))) * np.sqrt(i + 1)
         elif spec["kind"] == "near_integer":
             # close to, not on, the integer lattice (where the trigonometric terms vanish)
             x = rng.integers(-5, 6, n) + rng.choice([-1.0, 1.0], n) * np.exp(rng.uniform(np.log(1e-9), np.log(1e-3), n))
@@ -149,9 +149,11 @@ def run(spec):
         if name == "ackley" and np.linalg.norm(x) < 0.5:
             out.count("points_excluded_singular")
             continue
-        if name == "griewank" and np.any(np.abs(np.cos(x / np.sqrt(np.arange(1, n + 1)))) < 1e-6):
-            out.count("points_excluded_singular")
+        if name == "griewank" and np.any(np.cos(x / np.sqrt(np.arange(1, n + 1))) == 0.0):
+            out.count("points_excluded_singular")  # (the function itself is smooth there; only an exact zero breaks the closed form)
             continue
+        if name == "griewank" and np.any(np.abs(np.cos(x / np.sqrt(np.arange(1, n + 1)))) < 1e-7):
+            out.count("points_within_1e-7_of_a_cosine_zero")
         pts.append(x)
     answers = None
     layout = ("contiguous", "column_of_a_matrix", "every_second_element", "reversed_view")[(spec["seed"] // 2) % 4]
